@@ -11,6 +11,8 @@ LEVEL = "other"
 def run(chk, tier):
     facts = sbeppc_facts()
     gtab.check(chk, facts, which=("keys", "wrapper", "literal"))
+    import gflow
+    gflow.check_numeric_text(chk)
     plan = [("vprims_le", "c++17"), ("vprims_le", "c++20")]
     if tier == "thorough":
         plan += [("vprims_be", "c++17"), ("vprims_le", "c++11"), ("vprims_le", "c++14"), ("test_schema", "c++17"), ("vlayout", "c++17")]
